@@ -656,6 +656,126 @@ def _run_case(ck, env: Env, sig, rng, reqs, metas, stats):
                       and same_value(env.np, v_, var._value.value)), "?")
         real_outs.append({"key": k, "type": t, "value": v})
     metas.append(("infer", sig, {"outs": real_outs, "warns": sorted((a, b or "") for a, b in wl)}))
+    # ---- `Node.__init__` with its flags (`Custom.construct`): same class, attributes and inputs, hooks switched
+    h_ = sig["version"] * 7 + sig["level"] * 3 + len(sig["attrs"]) + 5 * len(sig["inputs"]) + len(sig["name"])
+    flags = [bool(h_ & 1), bool(h_ >> 1 & 1), bool(h_ >> 2 & 1)]  # a function of the signature: replays reproduce it
+    try:
+        import contextlib
+
+        with warnings.catch_warnings(record=True) as caught2:
+            warnings.simplefilter("always")
+            lvl = env.fut.type_warning_level(env.levels[sig["level"]]) if env.can_level else contextlib.nullcontext()
+            with lvl:
+                node2 = cls(node.attrs, node.inputs, out_variadic=sig["inst"]["out_nvar"],
+                            infer_types=flags[0], propagate_values=flags[1], validate=flags[2])
+        outs2 = list(node2.outputs.get_vars().items())
+    except Exception as e:  # noqa: BLE001
+        ck.failure("hooks:construct-raises", f"constructing with infer_types={flags[0]}, propagate_values={flags[1]}, "
+                   f"validate={flags[2]} raised {type(e).__name__}: {e}"[:300], case)
+        outs2 = None
+    if outs2 is not None:
+        stats["construct_flag_cases"] = stats.get("construct_flag_cases", 0) + 1
+        if [k for k, _ in outs2] != keys:
+            ck.failure("hooks:output-keys", f"output Vars {[k for k, _ in outs2]}, declared {keys} (flags {flags})", case)
+        for k, var in outs2:
+            want_t = (th or {}).get(k) if flags[0] else None
+            if var.type != want_t:
+                ck.failure("hooks:type-mismatch", f"output {k}: type {var.type}, expected {want_t} with infer_types={flags[0]}", case)
+            if var._value is not None and (not flags[1] or want_t is None or not (vh is not None and k in vh and conforms(env, want_t, vh[k]))):
+                ck.failure("hooks:value-unexpected", f"output {k}: Var carries value {var._value} with flags {flags}", case)
+        wl2 = classify_warnings(caught2)
+        if not flags[2] and any(kind in ("missing", "notConcrete") for kind, _ in wl2):
+            ck.failure("hooks:foreign-warning", f"validate=False but validation warnings {wl2}", case)
+        decl = [[n, k == "variadic"] for n, k in sig["outputs"]]
+        reqs.append({"kind": "construct", "decl": decl, "nvar": sig["inst"]["out_nvar"] or 0, "flags": flags,
+                     "thook": thook, "vhook": vhook, "check": passing, "level": sig["level"],
+                     "concrete": concrete, "inTypes": in_types})
+        real2 = []
+        for k, var in outs2:
+            t = None if var.type is None else next((tk for tk, t_ in tok_t.items() if t_ == var.type), "?")
+            v = None
+            if var._value is not None:
+                v = next((vk for vk, v_ in tok_v.items() if v_ is (vh or {}).get(k) and same_value(env.np, v_, var._value.value)), "?")
+            real2.append({"key": k, "type": t, "value": v})
+        metas.append(("infer", sig, {"outs": real2, "warns": sorted((a, b or "") for a, b in wl2)}))
+    # ---- what the built graph carries for the outputs requested as results (`Custom.resultInfo`)
+    in_vars = list(node.inputs.get_vars().values())
+    if outs and all(v.type is not None and v.type._is_concrete for v in in_vars):
+        rc = bool(len(sig["name"]) % 2 or sig["thook"] == "nonconcrete")
+        req_pairs = [[f"r_{k}", k] for k, _ in outs]
+        if len(req_pairs) > 1 and sig["version"] % 2:
+            req_pairs = req_pairs[::-1]  # results requested in another order than declared
+        results_case(ck, env, sig, case, th, dict(outs), req_pairs, rc, tok_t, thook, vhook, passing, reqs, metas, stats)
+
+
+def results_case(ck, env, sig, case, th, outs, req_pairs, rc, tok_t, thook, vhook, passing, reqs, metas, stats):
+    """`Graph.to_onnx(concrete=rc)` with the custom node's outputs as results: graph.output must carry
+    exactly the types the hook declared; an output without hook entry cannot become a result."""
+    try:
+        results = __import__("spox._graph", fromlist=["results"]).results
+        Type = env.ts.Type
+    except Exception as e:  # noqa: BLE001
+        ck.broken("correspondence", "spox._graph.results / Type not observable", f"{type(e).__name__}: {e}")
+        return
+    real = None
+    try:
+        with warnings.catch_warnings():
+            warnings.simplefilter("ignore")
+            gp = results(**{n: outs[k] for n, k in req_pairs}).to_onnx(concrete=rc)
+        got = [(o.name, Type._from_onnx(o.type)) for o in gp.output]
+        real = {"ok": [[n, next((tk for tk, t_ in tok_t.items() if t_ == t), "?")] for n, t in got]}
+    except (TypeError, ValueError) as e:
+        real = {"err": type(e).__name__, "msg": str(e)[:120]}
+    except Exception as e:  # noqa: BLE001
+        ck.broken("correspondence", "Graph.to_onnx with custom outputs as results not observable", f"{type(e).__name__}: {e}")
+        return
+    stats["results_cases"] = stats.get("results_cases", 0) + 1
+    c2 = {**case, "kind": "node"}
+    declared = {k: (th or {}).get(k) for _, k in req_pairs}
+    if "ok" in real:
+        for (n, t), (_, k) in zip(got, req_pairs):
+            if declared[k] is None:
+                ck.failure("results:untyped-accepted", f"output {k} has no type hook entry but is written out as result {n}: {t}", c2)
+            elif t != declared[k]:
+                ck.failure("results:type-mismatch", f"graph.output {n} carries {t}, the type hook declared {declared[k]} for {k}", c2)
+            elif rc and not declared[k]._is_concrete:
+                ck.failure("results:nonconcrete-accepted", f"output {k} declared {declared[k]} (no shape) is written out as result {n} although concrete=True", c2)
+        if [n for n, _ in got] != [n for n, _ in req_pairs]:
+            ck.failure("results:names", f"graph.output {[n for n, _ in got]} for requested {[n for n, _ in req_pairs]}", c2)
+    elif all(t is not None and (t._is_concrete or not rc) for t in declared.values()):
+        ck.failure("results:raises", f"all requested outputs have declared {'concrete ' if rc else ''}types but Graph.to_onnx raises {real['err']}: {real['msg']}", c2)
+    # the same through the public entry point: spox.build (always concrete=True) -> ModelProto
+    try:
+        keep = getattr(next(iter(outs.values()))._op, "_keep", [])
+        args_ = {f"a{i}": v for i, v in enumerate(keep) if type(getattr(v, "_op", None)).__name__ == "Argument"}
+        pub = None
+        try:
+            with warnings.catch_warnings():
+                warnings.simplefilter("ignore")
+                model = env.spox.build(args_, {n: outs[k] for n, k in req_pairs})
+            pub = [(o.name, Type._from_onnx(o.type)) for o in model.graph.output]
+        except Exception as e:  # noqa: BLE001
+            pub = e
+        stats["results_public"] = stats.get("results_public", 0) + 1
+        stats["results_public_built"] = stats.get("results_public_built", 0) + int(not isinstance(pub, Exception))
+        all_ok = all(t is not None and t._is_concrete for t in declared.values())
+        if isinstance(pub, Exception):
+            if all_ok and isinstance(pub, (TypeError, ValueError)) and ("type" in str(pub).lower() or "shape" in str(pub).lower()) \
+                    and "ok" in real:
+                ck.failure("results:raises", f"spox.build with the custom outputs as results raises {type(pub).__name__}: {str(pub)[:150]}", c2)
+        else:
+            for (n, t), (_, k) in zip(pub, req_pairs):
+                if declared[k] is None:
+                    ck.failure("results:untyped-accepted", f"spox.build writes output {k} (no type hook entry) out as {n}: {t}", c2)
+                elif t != declared[k]:
+                    ck.failure("results:type-mismatch", f"model.graph.output {n} carries {t}, the type hook declared {declared[k]} for {k}", c2)
+                elif not declared[k]._is_concrete:
+                    ck.failure("results:nonconcrete-accepted", f"spox.build writes output {k} declared {declared[k]} (no shape) out as {n}", c2)
+    except Exception as e:  # noqa: BLE001
+        ck.broken("correspondence", "public results facet not observable", f"{type(e).__name__}: {e}")
+    reqs.append({"kind": "results", "thook": thook, "vhook": vhook, "check": passing, "req": req_pairs,
+                 "concrete": [k for k, t in tok_t.items() if t._is_concrete], "rc": rc})
+    metas.append(("results", sig, real))
 
 
 def compare_model(ck, kind, sig, real, model, env):
@@ -1143,10 +1263,70 @@ FORCED = [
 ]
 
 
+def inline_custom_cases(ck, rng, stats, n, only=None, reqs=None, metas=None):
+    """`harness/lib_c18inline.py`: models written at ai.onnx 11-17 holding user-defined operators
+    next to nodes that need conversion, inlined into programs at opset 18-21 (public API only)."""
+    from harness import lib_c18inline as L
+
+    specs = [only] if only is not None else [L.gen_spec(rng, i) for i in range(n)]
+    dist = {}
+    # observation facet (tie H of `CustomInline.decide`): which models does spox hand to the converter?
+    calls, vc, orig = [], None, None
+    try:
+        import onnx.version_converter as vc
+
+        orig = vc.convert_version
+
+        def recording(model, target, *a, **k):
+            if model.graph.name != "spox__singleton_adapter_graph":
+                calls.append((max([o.version for o in model.opset_import if o.domain in ("", "ai.onnx")], default=None), target))
+            return orig(model, target, *a, **k)
+
+        vc.convert_version = recording
+    except Exception as e:  # noqa: BLE001
+        ck.broken("correspondence", "onnx.version_converter not observable", f"{type(e).__name__}: {e}")
+        vc = None
+    try:
+        _inline_custom_loop(ck, L, specs, dist, calls, only, reqs, metas)
+    finally:
+        if vc is not None and orig is not None:
+            vc.convert_version = orig
+    stats["inline_custom"] = dist
+
+
+def _inline_custom_loop(ck, L, specs, dist, calls, only, reqs, metas):
+    for spec in specs:
+        del calls[:]
+        try:
+            verdicts, info = L.run_spec(spec)
+        except Exception as e:  # noqa: BLE001
+            ck.broken("correspondence", "inline-custom case not observable (extension interface / onnx helpers)",
+                      f"{type(e).__name__}: {e}; spec={spec}")
+            continue
+        if reqs is not None and info.get("imports") and "" in info["imports"]:
+            real = {"decision": "convert", "src": calls[0][0], "tgt": calls[0][1]} if calls else {"decision": "keep"}
+            reqs.append({"kind": "adapt", "imports": info["foreign_imports"], "domains": info["foreign_domains"],
+                         "target": info["imports"][""]})
+            metas.append(("adapt", spec, real))
+        ck.count(("inline-custom", repr(spec)))
+        dist[spec["variant"]] = dist.get(spec["variant"], 0) + 1
+        for c in spec["chain"]:
+            if c[0] == "d":
+                dist["step:" + c[1]] = dist.get("step:" + c[1], 0) + 1
+        for key, what in verdicts:
+            ck.failure(key, what, {"kind": "inline-custom", "spec": spec})
+        if only is not None:
+            print("foreign:", info.get("foreign_ops"), "built:", info.get("built_ops"), "imports:", info.get("imports"))
+
+
 def run(ck: core.Check):
+    from harness.props.c11 import inventory
+
+    source_changed = inventory(ck, "_adapt.py")
     ck.lean(["SpoxModel.Props.C18"], audit="SpoxModel.Audit.C18")
     if ck.thorough:
-        ck.leanchecker(["SpoxModel.Props.C18"])
+        ck.leanchecker(["SpoxModel.Props.C18", "SpoxModel.Model.Custom", "SpoxModel.Model.CustomInline",
+                        "SpoxModel.Generated.AdaptAttrInventory"])
     try:
         env = Env(ck)
     except Exception as e:  # noqa: BLE001
@@ -1221,6 +1401,9 @@ def run(ck: core.Check):
         relabel_cases(ck, env, rng, stats, ck.pick(60, 600))
     except Exception as e:  # noqa: BLE001
         ck.broken("correspondence", "relabelling cases not observable", f"{type(e).__name__}: {e}")
+    # a custom operator inside an inlined model, next to default-domain nodes that need opset adaptation
+    # escalation: a changed `_adapt.py` gets the larger count even in the quick tier
+    inline_custom_cases(ck, rng, stats, ck.pick(120, 1200) if not source_changed else 600, reqs=reqs, metas=metas)
     # execution
     for position in ("top", "if", "twice"):
         for k in (2.5, -0.75):
@@ -1240,6 +1423,14 @@ def run(ck: core.Check):
                 d = compare_model(ck, kind, sig, real, m, env)
             except Exception as e:  # noqa: BLE001
                 d = f"comparison not observable: {type(e).__name__}: {e}"
+        elif kind == "results":
+            if "ok" in real:
+                d = None if m.get("ok") == real["ok"] else f"result infos: model {m} vs real {real}"
+            else:
+                want = {"TypeError": "untyped", "ValueError": "notConcrete"}.get(real["err"])
+                d = None if m.get("err") == want else f"result infos: model {m} vs real {real}"
+        elif kind == "adapt":
+            d = None if m == real else f"adapt_inline decision: model {m} vs observed {real}"
         elif kind == "reinfer":
             want = [{"key": k, "type": "T0", "value": "V0"} for k in real]
             d = None if m.get("outs") == want and m.get("warns") == [] else f"second inference: model {m}"
@@ -1274,6 +1465,9 @@ def run(ck: core.Check):
 
 def replay(ck: core.Check, doc) -> bool:
     if doc.get("kind") == "obligation" or "case" not in doc:
+        from harness.props.c11 import inventory
+
+        inventory(ck, "_adapt.py")
         res = ck.lean(["SpoxModel.Props.C18"], audit="SpoxModel.Audit.C18")
         return not res.ok
     env = Env(ck)
@@ -1296,6 +1490,8 @@ def replay(ck: core.Check, doc) -> bool:
         exec_case(ck, env, c["position"], c["k"], stats)
     elif c["kind"] == "reinfer":
         reinfer_case(ck, env, fix(c["sig"]), rng)
+    elif c["kind"] == "inline-custom":
+        inline_custom_cases(ck, rng, stats, 1, only=c["spec"])
     elif c["kind"] == "relabel":
         class _R:  # replays the recorded choice of relabelled nodes
             def randrange(self, n):
